@@ -453,10 +453,10 @@ def _replay_lexical_error_fails(src):
 def k2(ctx, kr):
     global _CTX
     _CTX = ctx
-    NB = (1, 2) if ctx.tier == 'quick' else (1, 2, 3)
-    kr.bounds = ('a valid program with %s [quick: one byte; thorough: three bytes only after the program] symbolic bytes of valid UTF-8 inserted in the declarations, in the body or after the program: whenever the lexer of the same tree (lifted from its MIR) yields an error token for the text, '
+    NB = (1,) if ctx.tier == 'quick' else (1, 2)
+    kr.bounds = ('a valid program with %s symbolic bytes of valid UTF-8 inserted in the declarations, in the body or after the program: whenever the lexer of the same tree (lifted from its MIR) yields an error token for the text, '
                  'parse_program (preprocess, tokenize, terminator insertion, peg parser; from the MIR) returns Err' % (list(NB),))
-    jobs = [(w, nb) for w in ('in_declarations', 'in_body', 'after_the_program') for nb in (1, 2)] + [('after_the_program', 3)]
+    jobs = [(w, nb) for w in ('in_declarations', 'in_body', 'after_the_program') for nb in (1, 2)]       # three bytes after the program exhaust the path budget (6000 paths after 68 minutes): outside the claim
     if ctx.tier == 'quick': jobs = [(w, 1) for w in ('in_declarations', 'in_body', 'after_the_program')]
     for part in par_map(_k2_job, jobs): merge_part(kr, part)
     P = ctx.program()
